@@ -532,9 +532,18 @@ pub fn gen(seed: u64, n: usize) -> Vec<Value> {
                 let texts: Vec<String> = (0..16)
                     .map(|_| {
                         let len = rng.random_range(0..=16);
-                        (0..len)
+                        let mut t: String = (0..len)
                             .map(|_| if rng.random_bool(0.15) { [' ', ' ', ' ', '\t', '\u{00A0}', '\n', '\r', '\u{000B}', '\u{000C}', '\u{0085}', '\u{2028}', '\u{3000}'][rng.random_range(0..12)] } else { chars[rng.random_range(0..chars.len())] })
-                            .collect()
+                            .collect();
+                        // one text in five contains the spelling of a special token (plain text when special tokens are
+                        // ignored), with whitespace in front of it half of the time
+                        if !specials.is_empty() && rng.random_bool(0.2) {
+                            let cut = (0..=t.len()).filter(|p| t.is_char_boundary(*p)).nth(rng.random_range(0..=t.chars().count())).unwrap_or(t.len());
+                            let sp = &specials[rng.random_range(0..specials.len())];
+                            let ws = ["", " ", "\n", "  "][rng.random_range(0..4)];
+                            t = format!("{}{}{}{}", &t[..cut], ws, sp, &t[cut..]);
+                        }
+                        t
                     })
                     .collect();
                 let max_vocab = if rng.random_bool(0.3) { 256 + specials.len() + rng.random_range(0..=tab.len()) }
